@@ -1,7 +1,175 @@
-(* C07 - placeholder while the proofs are being written *)
+(* C07 - HTML serializer output re-parses to the same tree; inner equals outer.
+   Only statements, closed by [exact], and their assumptions.
+
+   The model (HtmlSer/SerModel.v, tied to html5ever/src/serialize/mod.rs and
+   rcdom's Serialize impl by the correspondence run of lib/checks/c07.py) has
+   two switches: [as_is] mirrors the code at the pinned commit, [repaired]
+   mirrors the code with the two defects of DESIGN 6.3 (#16, #11) repaired;
+   the check detects which one the working tree implements.
+
+   Proved here
+   * escaping: what write_escaped writes, exactly, for EVERY string; it is the
+     WHATWG "escaping a string" outside the class U+0080..U+00BF minus U+00A0
+     and for the repaired loop; refuted for the code as it is (witness: the
+     copyright sign, bytes C2 A9, is written as the single byte A9);
+   * nothing escapes its context: for every Unicode string free of CR and NUL
+     the tokenizer fragment (Data state / double-quoted attribute value,
+     character references) reads the escaped string back to the original and
+     never leaves the context; no raw less-than, greater-than (and no raw
+     quotation mark in attribute mode) is ever produced;
+   * inner = between-tags(outer) for ALL trees: refuted for the code as it is
+     (SVG style element), proved outside that class and for the repaired
+     variant; text is raw only under HTML raw-text elements.
+
+   NOT proved (no theorem below claims it): parse_fragment (serialize t) = t
+   for vocabulary trees.  That needs the tokenizer and tree-builder models;
+   it is judged on the implementation by the round-trip oracle of
+   lib/checks/c07.py.  The reversibility theorem is stated against the
+   hand-written tokenizer fragment SerSpec.untok, not against the tokenizer
+   model. *)
 From Coq Require Import List NArith Bool.
-From HV Require Import HtmlSer.SerModel HtmlSer.SerSpec.
+From HV Require Import Base.Utf8 HtmlSer.SerModel HtmlSer.SerSpec HtmlSer.SerProofs.
 Import ListNotations.
-Example C07_smoke : write_escaped_impl as_is false [0xC2; 0xA9]%N = WOk [0xA9]%N.
-Proof. vm_compute. reflexivity. Qed.
-Print Assumptions C07_smoke.
+
+(* ------------------------------------------------------------------ escaping *)
+
+(* the byte-position loop never panics and never exhausts its bound, on any bytes *)
+Theorem C07_write_escaped_total :
+  forall v attr bytes, write_escaped_impl v attr bytes = WOk (we_bytes v attr bytes).
+Proof. exact write_escaped_total. Qed.
+Print Assumptions C07_write_escaped_total.
+
+(* exact characterisation, every string, both variants *)
+Theorem C07_escape_impl_exact :
+  forall v attr s,
+  write_escaped_impl v attr (encs s) =
+  WOk (flat_map (fun c => if lost_lead c && negb (fix_c2 v) then [c] else encs (esc_char attr c)) s).
+Proof. exact write_escaped_exact. Qed.
+Print Assumptions C07_escape_impl_exact.
+
+(* C07_escape_impl_spec : forall attr s, write_escaped_impl as_is attr (encs s)
+   = WOk (encs (escape_spec attr s))   is FALSE for the code as it is: *)
+Theorem C07_escape_impl_spec_refuted :
+  exists s attr, scalars s /\
+    write_escaped_impl as_is attr (encs s) <> WOk (encs (escape_spec attr s)).
+Proof. exact escape_impl_spec_refuted. Qed.
+Print Assumptions C07_escape_impl_spec_refuted.
+
+Theorem C07_escape_impl_loses_exactly_the_lead_byte :
+  forall attr c, lost_lead c = true ->
+  write_escaped_impl as_is attr (encs [c]) = WOk [c] /\ encs (escape_spec attr [c]) = [0xC2; c]%N.
+Proof. exact escape_impl_loses_exactly_the_lead_byte. Qed.
+Print Assumptions C07_escape_impl_loses_exactly_the_lead_byte.
+
+Theorem C07_escape_impl_spec_outside_finding :
+  forall v attr s, Forall (fun c => lost_lead c = false) s ->
+  write_escaped_impl v attr (encs s) = WOk (encs (escape_spec attr s)).
+Proof. exact escape_impl_spec_outside. Qed.
+Print Assumptions C07_escape_impl_spec_outside_finding.
+
+Theorem C07_escape_impl_spec_repaired :
+  forall v attr s, fix_c2 v = true ->
+  write_escaped_impl v attr (encs s) = WOk (encs (escape_spec attr s)).
+Proof. exact escape_impl_spec_repaired. Qed.
+Print Assumptions C07_escape_impl_spec_repaired.
+
+(* the sequential replacement steps of the standard are a per-character map *)
+Theorem C07_escape_spec_charwise :
+  forall attr s, escape_spec attr s = flat_map (esc_char attr) s.
+Proof. exact escape_spec_charwise. Qed.
+Print Assumptions C07_escape_spec_charwise.
+
+(* ------------------------------------------------------------------ nothing escapes its context *)
+Theorem C07_escape_reversible :
+  forall attr s, ~ In 0%N s -> ~ In 0x0D%N s -> unescape attr (escape_spec attr s) = Some s.
+Proof. exact escape_reversible. Qed.
+Print Assumptions C07_escape_reversible.
+
+Theorem C07_escape_no_raw_delimiter :
+  forall attr s x, (x = 0x3C \/ x = 0x3E \/ (attr = true /\ x = 0x22))%N -> ~ In x (escape_spec attr s).
+Proof. exact escape_no_raw_delimiter. Qed.
+Print Assumptions C07_escape_no_raw_delimiter.
+
+(* ------------------------------------------------------------------ the serializer over a tree *)
+
+(* the stack machine driven by the rcdom traversal is a function of
+   (parent info, node); in particular it never panics *)
+Theorem C07_ser_include_node :
+  forall v o n, doc_free n = true ->
+  ser_bytes v (with_scope o IncludeNode) n =
+  Some (node_bytes v (scripting_enabled o) (init_info v IncludeNode) n).
+Proof. exact ser_include_node. Qed.
+Print Assumptions C07_ser_include_node.
+
+Theorem C07_ser_children_only :
+  forall v o x n, forallb doc_free (children_of n) = true ->
+  ser_bytes v (with_scope o (ChildrenOnly x)) n =
+  Some (concat (map (node_bytes v (scripting_enabled o) (init_info v (ChildrenOnly x))) (children_of n))).
+Proof. exact ser_children_only. Qed.
+Print Assumptions C07_ser_children_only.
+
+(* C07_inner_outer : forall v o name attrs ch, outer = start_tag ++ inner ++ end_tag
+   is FALSE for the code as it is: *)
+Theorem C07_inner_outer_refuted :
+  exists name attrs ch o inner,
+    forallb doc_free ch = true /\ is_void name = false /\
+    ser_bytes as_is (with_scope o (ChildrenOnly (Some name))) (Element name attrs ch) = Some inner /\
+    ser_bytes as_is (with_scope o IncludeNode) (Element name attrs ch) <>
+      Some (start_tag as_is name attrs ++ inner ++ end_tag name).
+Proof. exact inner_outer_refuted. Qed.
+Print Assumptions C07_inner_outer_refuted.
+
+(* every tree, every element, every option set, outside the defect class
+   (non-HTML element with a raw-text local name and a text child); a void HTML
+   element must not have element children (the parser never creates any) *)
+Theorem C07_inner_outer_outside_finding :
+  forall v o name attrs ch,
+  forallb doc_free ch = true ->
+  (fix_ns v = true \/ ns_eqb (fst name) NsHtml = true \/
+   raw_parent (scripting_enabled o) (snd name) = false \/ existsb is_text ch = false) ->
+  (is_void name = true -> existsb is_elem ch = false) ->
+  exists inner,
+    ser_bytes v (with_scope o (ChildrenOnly (Some name))) (Element name attrs ch) = Some inner /\
+    ser_bytes v (with_scope o IncludeNode) (Element name attrs ch) =
+      Some (start_tag v name attrs ++ inner ++ (if is_void name then [] else end_tag name)).
+Proof. exact inner_outer. Qed.
+Print Assumptions C07_inner_outer_outside_finding.
+
+Theorem C07_inner_outer_repaired :
+  forall v o name attrs ch,
+  fix_ns v = true ->
+  forallb doc_free ch = true ->
+  (is_void name = true -> existsb is_elem ch = false) ->
+  exists inner,
+    ser_bytes v (with_scope o (ChildrenOnly (Some name))) (Element name attrs ch) = Some inner /\
+    ser_bytes v (with_scope o IncludeNode) (Element name attrs ch) =
+      Some (start_tag v name attrs ++ inner ++ (if is_void name then [] else end_tag name)).
+Proof. exact inner_outer_repaired. Qed.
+Print Assumptions C07_inner_outer_repaired.
+
+(* text left unescaped only under the HTML raw-text elements *)
+Theorem C07_text_raw_only_under_html_raw_text :
+  forall v scr name t,
+  node_bytes v scr (info_of name) (Text t) =
+  if ns_eqb (fst name) NsHtml && raw_parent scr (snd name) then t else we_bytes v false t.
+Proof. exact text_raw_only_under_html_raw_text. Qed.
+Print Assumptions C07_text_raw_only_under_html_raw_text.
+
+(* non-vacuity: a tree with an attribute, escaped text, a raw-text element and a
+   void element serializes as expected, and inner is the middle of outer *)
+Example C07_nonvacuous :
+  let o := {| scripting_enabled := true; traversal_scope := IncludeNode; create_missing_parent := false |} in
+  let sp := (NsHtml, [115; 112; 97; 110]%N) in                       (* span *)
+  let t := Element sp [((NsNone, [105; 100]%N), [34; 60]%N)]          (* id = QUOTE < *)
+             [Text [97; 38; 194; 160]%N;                              (* a & NBSP *)
+              Element (NsHtml, [115; 116; 121; 108; 101]%N) [] [Text [60]%N];   (* style: raw *)
+              Element (NsHtml, [98; 114]%N) [] []] in                 (* br: void *)
+  ser_bytes as_is (with_scope o IncludeNode) t =
+    Some ([60; 115; 112; 97; 110; 32; 105; 100; 61; 34; 38; 113; 117; 111; 116; 59; 38; 108; 116; 59; 34; 62]
+          ++ [97; 38; 97; 109; 112; 59; 38; 110; 98; 115; 112; 59;
+              60; 115; 116; 121; 108; 101; 62; 60; 60; 47; 115; 116; 121; 108; 101; 62; 60; 98; 114; 62]
+          ++ [60; 47; 115; 112; 97; 110; 62])%N /\
+  ser_bytes as_is (with_scope o (ChildrenOnly (Some sp))) t =
+    Some [97; 38; 97; 109; 112; 59; 38; 110; 98; 115; 112; 59;
+          60; 115; 116; 121; 108; 101; 62; 60; 60; 47; 115; 116; 121; 108; 101; 62; 60; 98; 114; 62]%N.
+Proof. split; vm_compute; reflexivity. Qed.
